@@ -510,8 +510,10 @@ def obj_array(list objs):
     """Create a (Cython) array of objects given a list of objects"""
     cdef object[:] arr
     cdef Py_ssize_t i
-    arr = cython_array(shape=(len(objs),), itemsize=sizeof(void *), format="O")
+    # a Cython array cannot have a zero-length axis: allocate at least one slot and
+    # return a view of the right length (empty for a result with zero columns)
+    arr = cython_array(shape=(max(len(objs), 1),), itemsize=sizeof(void *), format="O")
     # arr[:] = objs # This does not work (segmentation faults)
     for i, obj in enumerate(objs):
         arr[i] = obj
-    return arr
+    return arr[:len(objs)]
